@@ -568,6 +568,7 @@ ApiOk(st, a) ==
 GwMids(st, p) ==
     CASE p.midsrc = "none" -> {0}
       [] p.midsrc = "pend" -> DOMAIN st.tx \cup DOMAIN st.rtx
+      [] p.midsrc = "gw"   -> DOMAIN st.rtx \cup GenMids   \* the gateway's own exchanges (open or foreign)
       [] OTHER             -> DOMAIN st.tx \cup DOMAIN st.rtx \cup GenMids
 
 StepProps(pre, ev, r) ==
